@@ -22,6 +22,7 @@ ASSUMPTIONS = ["inner clients are built with ignore_exc=False (proved in C16: _c
 NOT_COVERED = [               "input errors (MemcacheIllegalInputError before any I/O) are not server or network failures"]
 BUDGET = {"quick": 30, "thorough": 120}
 FILTER_BY_PROPERTY = True
+REPLAY_UNDECIDED = True
 DEPENDS = ["C13"]      # _safely_run_func's contract: nothing escapes with ignore_exc
 
 
@@ -33,3 +34,122 @@ def build(E, tier):
     cm.verify_public_fetch(E)
     hm.verify_hash_single(E)
     hmany.verify_hash_many(E, methods=("get_many", "gets_many"), prop="C12")
+
+
+REPLAY = r'''
+import socket
+from fakesock import FakeModule
+from pymemcache.client.base import Client, PooledClient
+from pymemcache.client.hash import HashClient
+from pymemcache import serde as serde_mod
+class BadSerde:
+    def serialize(self, key, value): return value, 0
+    def deserialize(self, key, value, flags): raise ValueError("cannot deserialise")
+HIT = b"VALUE k 0 1\r\nv\r\nEND\r\n"
+HITS = b"VALUE k 0 1 7\r\nv\r\nEND\r\n"
+FAULTS = {
+    "connect-refused": dict(connect_error=ConnectionRefusedError("refused")),
+    "connect-timeout": dict(connect_error=socket.timeout("timed out")),
+    "send-broken-pipe": dict(send_error=BrokenPipeError("pipe")),
+    "recv-reset": dict(chunks=[ConnectionResetError("reset")]),
+    "recv-timeout": dict(chunks=[socket.timeout("timed out")]),
+    "eof": dict(chunks=[]),
+    "truncated-value": dict(chunks=[b"VALUE k 0 5\r\nab"]),
+    "truncated-header": dict(chunks=[b"VALUE k 0"]),
+    "ERROR": dict(chunks=[b"ERROR\r\n"]),
+    "SERVER_ERROR": dict(chunks=[b"SERVER_ERROR out of memory\r\n"]),
+    "CLIENT_ERROR": dict(chunks=[b"CLIENT_ERROR bad\r\n"]),
+    "bad-size": dict(chunks=[b"VALUE k 0 abc\r\nv\r\nEND\r\n"]),
+    "short-value-line": dict(chunks=[b"VALUE k\r\nEND\r\n"]),
+    "garbage": dict(chunks=[b"\x00\xff garbage\r\n"]),
+    "foreign-key": dict(chunks=[b"VALUE other 0 1\r\nx\r\nEND\r\n"]),
+    "undeserialisable": dict(chunks=[HITS], serde=BadSerde()),
+    "bad-integer-flag": dict(chunks=[b"VALUE k 2 3 7\r\nabc\r\nEND\r\n"], serde=serde_mod.pickle_serde),
+}
+OPS = {
+    "get": lambda c: c.get("k"), "get-default-kw": lambda c: c.get("k", default="d"), "get-default-pos": lambda c: c.get("k", "d"),
+    "gets": lambda c: c.gets("k"), "gets-defaults": lambda c: c.gets("k", default="d", cas_default="c"),
+    "gat": lambda c: c.gat("k", 10), "gat-default": lambda c: c.gat("k", 10, default="d"),
+    "gats": lambda c: c.gats("k", 10), "gats-defaults": lambda c: c.gats("k", 10, default="d", cas_default="c"),
+    "get_many": lambda c: c.get_many(["k", "k2"]), "gets_many": lambda c: c.gets_many(["k"]), "get_many-iterator": lambda c: c.get_many(iter(["k"])),
+}
+def build(kind, mod, serde):
+    kw = dict(socket_module=mod, ignore_exc=True, connect_timeout=1, timeout=1)
+    if serde is not None: kw["serde"] = serde
+    if kind == "Client": return Client(("h", 1), **kw)
+    if kind == "PooledClient": return PooledClient(("h", 1), **kw)
+    if kind == "HashClient": return HashClient([("h", 1)], **kw)
+    if kind == "HashClient-pooled": return HashClient([("h", 1)], use_pooling=True, **kw)
+bad = None; n = 0
+for kind in ("Client", "PooledClient", "HashClient", "HashClient-pooled"):
+    for oname, op in OPS.items():
+        # the miss value: the same call against a healthy server that has nothing
+        want = op(build(kind, FakeModule(per_socket=[[b"END\r\n"]] * 4), None))
+        for fname, f in FAULTS.items():
+            n += 1
+            healthy = [HIT]
+            mod = FakeModule(per_socket=[f.get("chunks", [])] + [healthy] * 6, connect_error=f.get("connect_error"), send_error=f.get("send_error"))
+            c = build(kind, mod, f.get("serde"))
+            try:
+                got = op(c); raised = None
+            except Exception as e:
+                got, raised = None, repr(e)
+            if raised is not None or got != want:
+                bad = dict(cls=kind, op=oname, fault=fname, raised=raised, returned=repr(got), miss_value=repr(want)); break
+            # still usable once the fault is gone
+            mod.connect_error = mod.send_error = None
+            if f.get("serde") is None:
+                try:
+                    again = c.get("k")
+                    if again != b"v" and not (kind.startswith("HashClient") and again is None):   # a HashClient may be inside its back-off window
+                        bad = dict(cls=kind, op=oname, fault=fname, after="get returned %r on a healthy connection" % (again,)); break
+                except Exception as e:
+                    bad = dict(cls=kind, op=oname, fault=fname, after="client unusable after the fault: %r" % (e,)); break
+        if bad: break
+    if bad: break
+# two servers behind a HashClient, one failing at the client level (client_class seam)
+if not bad:
+    class Down(OSError): pass
+    class FC:
+        def __init__(self, server, **kw): self.server = server
+        def _f(self):
+            if self.server[1] == 1: raise Down("down")
+        def get(self, key, default=None, **kw): self._f(); return "v-" + str(key)
+        def gets(self, key, default=None, cas_default=None, **kw): self._f(); return ("v-" + str(key), b"1")
+        def get_many(self, keys, **kw): self._f(); return {k: "v-" + str(k) for k in keys}
+        def gets_many(self, keys, **kw): self._f(); return {k: ("v-" + str(k), b"1") for k in keys}
+        def close(self): pass
+    for nserv in (1, 2, 3):
+        hc = HashClient([], ignore_exc=True, retry_attempts=1, retry_timeout=5)
+        hc.client_class = FC
+        for i in range(nserv): hc.add_server(("10.0.0.%d" % (i + 1), i + 1))
+        keys = ["key%d" % i for i in range(12)]
+        for rnd in range(3):
+            n += 1
+            try:
+                got = hc.get_many(keys); gots = hc.gets_many(keys[:5]); one = hc.get(keys[0]); raised = None
+            except Exception as e:
+                raised = repr(e)
+            if raised:
+                bad = dict(cls="HashClient", servers=nserv, op="get_many/gets_many/get with server 1 failing", raised=raised); break
+            wrong = [k for k, v in got.items() if v != "v-" + k]
+            if wrong:
+                bad = dict(cls="HashClient", servers=nserv, op="get_many", wrong=repr(wrong)); break
+        if bad: break
+out(cases=n, failing=bad)
+'''
+_rc = {}
+
+
+def replay(ob, res):
+    """Bounded replay: every read of the four client stacks under 17 fault plans with ignore_exc (the miss value is what the same
+    call returns against a healthy empty server), the client reused afterwards; plus HashClient over 1..3 fake servers, one failing."""
+    from pyvc import replay as rp
+    if "r" not in _rc:
+        _rc["r"] = rp.run_real(REPLAY, {}, timeout=900)
+    obs = _rc["r"]
+    from pyvc.replay import failing_of
+    if failing_of(obs):
+        obs = dict(obs, failing=failing_of(obs))
+        return {"reproduced": True, "call": "read operation with ignore_exc=True under an injected fault", "input": obs["failing"], "cases_tried": obs.get("cases")}
+    return {"reproduced": False, "searched": obs}
